@@ -320,7 +320,7 @@ def run(c: Check):
                     dict(desc=dict(nodes=[], actions=[]), ops=[], probe="harness/drive_cfgdefault.py", got=pr))
     c.level_assumptions = [
         "SHA-256 is a parameter of the theorems (Gallina SHA-256 validated against hashlib by the correspondence)",
-        "frozen_identity is proved for acyclic graphs (identifiers = the fuel-free table specification); cyclic graphs are covered by correspondence + oracle",
+        "C14_frozen_identity is the acyclic special case; C14_coherent_under_edits / C14_sealed_identity_stable cover every graph (cycles included) from any state satisfying ginv, and ginv is evaluated on every exported state",
         "in-place mutation of a list/dict value, copy_dependencies, and python -O (set_meta is guarded by assert) are outside the property's statement",
     ]
 
